@@ -266,7 +266,7 @@ func (c *Ctx) checkTxBracket(b txBegin) {
 			bads = append(bads, bad{ret, "return without Commit/Rollback and no deferred rollback on an error cell", c.pos(ret)})
 			return
 		}
-		n, known := f[cell]
+		n, known := f.CellFact(cell)
 		if known && !n {
 			return // deferred closure will roll back
 		}
@@ -431,7 +431,7 @@ func (c *Ctx) checkTxErrorsConsumed(b txBegin, isEnd func(ssa.Instruction) bool,
 		if errResultOf(b.call, b.errIx)(st.Val) {
 			return // the assignment of Begin's own error
 		}
-		n, known := f[cell]
+		n, known := f.CellFact(cell)
 		if known && n {
 			return
 		}
